@@ -116,7 +116,7 @@ def run(tier, seed):
         "lookups) with its pre-state; non-trivial = a refused call; distinct_nontrivial counts distinct "
         "(state, refused call) pairs (frontier states are pairwise distinct by construction)")
     found = {}
-    deadline = time.time() + (200 if tier == "quick" else 3000)
+    deadline = time.time() + (900 if tier == "quick" else 6000)
     scns = scenarios.STRUCTURAL + [scenarios.S6, scenarios.S7, scenarios.S8] + scenarios.naming_scenarios()
     k = seed % len(scns)
     for scn in scns[k:] + scns[:k]:
